@@ -35,6 +35,8 @@ def lemmas():
     L('block-header', [], TB.block_hdr("embe", [z3.StringVal("X")], n, step) == cat(tok("embe %s %d 0.0 %f", z3.StringVal("X"), n, real(n - 1) * step), NL))
     # declared count == number of blocks, for 1..4 elements with pairwise distinct labels (the statement's range).
     # The number of members of the key set {key(l_i,l_j)} is computed by unfolding the set for concrete n.
+    sa, sb = z3.Strings('sa sb')
+    L('pair-key-is-symmetric', [], key(sa, sb) == key(sb, sa))
     for nn in (1, 2, 3, 4):
         es, seq = _concrete_es(nn)
         labels = [EAM['species'](e) for e in es]
@@ -45,8 +47,10 @@ def lemmas():
         # membership: exactly the n(n+1)/2 unordered pairs, which are pairwise distinct keys
         L('pair-key-set-n%d' % nn, distinct, z3.And(*([z3.Select(S, kk) for kk in keys] +
                                                       [keys[a] != keys[b] for a in range(len(keys)) for b in range(a + 1, len(keys))])), depth=nn * nn + nn + 2)
-        if nn <= 2:
-            L('pair-key-set-n%d-nothing-else' % nn, distinct + [z3.Select(S, k)], z3.Or(*[k == kk for kk in keys]), depth=nn * nn + nn + 2)
+        # nothing but those keys: the loops store key(l_i, l_j) for every ORDERED pair; key is symmetric (lemma 'pair-key-is-symmetric',
+        # proved once for two arbitrary strings and instantiated here), so only the n(n+1)/2 unordered ones occur
+        sym = [key(labels[a], labels[b]) == key(labels[b], labels[a]) for a in range(nn) for b in range(a + 1, nn)]
+        L('pair-key-set-n%d-nothing-else' % nn, distinct + sym + [z3.Select(S, k)], z3.Or(*[k == kk for kk in keys]), depth=nn * nn + nn + 2)
         cnt = real(nn) * (real(nn) + 5) / 2
         L('declared-count-n%d' % nn, [], cnt == len(keys) + nn + nn)
         cntfs = 3 * real(nn) * (real(nn) + 1) / 2
@@ -64,7 +68,7 @@ MUTANTS = [
 ]
 ASSUMPTIONS = ['A1: float as real', 'A4: sorted(set) is the strictly increasing sequence of exactly the members (its length for n distinct labels is the number of members: n(n+1)/2, by the key-set lemmas for n = 1..4)',
                'A7: DL_POLY TABEAM layout', 'labels pairwise distinct and non-empty; FS models declare a density for every ordered pair (else KeyError, see C16)']
-NOT_DECIDED = ['that the key set holds NOTHING BUT the n(n+1)/2 unordered pairs is discharged for n = 1, 2 only: for n = 3, 4 both solvers time out on the string-order case analysis (the inclusion and pairwise distinctness of the n(n+1)/2 keys IS proved for n = 1..4); the oracle compares declared count and block count on the real code (bounded)']
+NOT_DECIDED = ['the count lemma (the key set holds exactly the n(n+1)/2 unordered pairs) is proved for the statement\'s n = 1..4 by unfolding; not claimed for general n']
 NOTES = ['the pair blocks are specified in the order the code emits them (sorted by canonical key); the statement does not fix an order, DL_POLY does not need one',
          'count lemma: proved for the statement\'s 1..4 elements by unfolding the key set; not claimed for general n',
          'title: the source slices the argument tuple instead of the string, so titles are not truncated to 100 characters (harmless)']
